@@ -279,7 +279,7 @@ func ruleC29(c *Ctx) {
 					continue
 				}
 				n++
-				have := factsAt(og.at)
+				have := originFacts(og)
 				if !have["call:consensus.IsBech32SegwitPrefix = true"] || !have["call:common.decodeSegWitAddress#2 == nil"] {
 					ok = false
 				}
@@ -451,7 +451,7 @@ func ruleC30(c *Ctx) {
 	vp := c.Func(pTypes, "validateMerkleTreeProof")
 	if vp != nil {
 		ok := false
-		nGood, nBad := 0, 0
+		nGood, nBad, nExtraFalse := 0, 0, 0
 		for _, b := range vp.Blocks {
 			if ret, isR := b.Instrs[len(b.Instrs)-1].(*ssa.Return); isR {
 				// root == merkleRoot && merkleHashes.Len() == 0 — as one expression (φ(false, len==0) under the
@@ -460,12 +460,23 @@ func ruleC30(c *Ctx) {
 				// evaluated where the root equality is known
 				for _, og := range valueOrigins(canon(ret.Results[0]), ret) {
 					if k, isK := og.val.(*ssa.Const); isK && k.Value != nil && k.Value.ExactString() == "false" {
+						// completeness: the only way to say "invalid" outright is a root mismatch (a generated
+						// proof, including the one for an empty list, must not be turned away by an extra test)
+						mismatch := false
+						for ft := range originFacts(og) {
+							if strings.Contains(ft, "call:"+pTypes+".getMerkleRootByProof != param#3") || strings.Contains(ft, "param#3 != call:"+pTypes+".getMerkleRootByProof") {
+								mismatch = true
+							}
+						}
+						if !mismatch {
+							nExtraFalse++
+						}
 						continue
 					}
 					good := false
 					if bo, isB := og.val.(*ssa.BinOp); isB && bo.Op.String() == "==" && mentions(bo, callsKey("(*container/list.List).Len"), 3, nil) {
 						have := factsAt(bo)
-						for ft := range factsAt(og.at) {
+						for ft := range originFacts(og) {
 							have[ft] = true
 						}
 						for ft := range have {
@@ -483,6 +494,7 @@ func ruleC30(c *Ctx) {
 			}
 		}
 		ok = nGood >= 1 && nBad == 0
+		c.Require("facts", fname(vp)+": a proof is rejected outright only on a root mismatch", nExtraFalse == 0, "%d constant-false result(s) not under root != merkleRoot", nExtraFalse)
 		c.Require("facts", fname(vp)+": true only if the recomputed root equals the given root and every related leaf was consumed", ok, "root == merkleRoot && merkleHashes.Len() == 0 (%d conforming, %d other non-false result origins)", nGood, nBad)
 	}
 	gp := c.Func(pTypes, "getMerkleRootByProof")
